@@ -175,7 +175,8 @@ def job(args):
         tl0 = list(tl)
         ws.interp.frozen_lists = {id(tl): 'eqnterms (the caller\'s list)'}
         ws.call('pdesolver', 'solvePDE', phis, tl, ws.ext)
-        muts = [e for e in ws.ctx.events if e[0] == 'input-mutated' and not str(e[1]).startswith('phi._value')]
+        # everything owned by the solution variable (its values, its cached boundary system) is the variable solvePDE may modify
+        muts = [e for e in ws.ctx.events if e[0] == 'input-mutated' and not str(e[1]).startswith('phi.')]
         same = len(tl) == len(tl0) and all(x is y for x, y in zip(tl, tl0))
         ob('Z2', 'pdesolver.solvePDE', not muts and same, (f"stores outside the solution variable: {muts[:3]}" if muts else f"the caller's term list changed: {len(tl0)} -> {len(tl)} entries") if (muts or not same) else "only the solution variable is written", fs.loc())
     except AbstractRaise as e:
